@@ -426,7 +426,80 @@ def rule_r5(repo):
             if got != want or extra:
                 rr.fail('pragma:parsing', pp.where, 'script %r sets the level to %r%s (expected %r; only leading #$ lines count, unknown keys are ignored)' % (
                     code, got, ' and adds keys %s' % sorted(extra) if extra else '', want))
-    rr.require_floor(10)
+    # command line: an absent -n must reach ScriptRunner as None, otherwise a pragma in the script can never take effect
+    main = repo.func('__init__', 'main')
+    opt = None
+    for n in ast.walk(main.node):
+        if isinstance(n, ast.Call) and isinstance(n.func, ast.Attribute) and n.func.attr == 'add_argument' and \
+                any(isinstance(a, ast.Constant) and a.value == '--data-values-nest-level' for a in n.args):
+            opt = n
+    rr.instance('command line option --data-values-nest-level has no default')
+    if opt is None:
+        raise AnalysisError('main(): option --data-values-nest-level not found')
+    for kw in opt.keywords:
+        if kw.arg == 'default' and not (isinstance(kw.value, ast.Constant) and kw.value.value is None):
+            rr.fail('main:nest-level-default', '%s:%d' % (main.module.relpath, opt.lineno), 'the option --data-values-nest-level defaults to %s: ScriptRunner then always '
+                    'receives a level and a `#$ data_values_nest_level = N` pragma in the script is silently ignored' % norm(kw.value))
+    cs = repo.func('commands', 'command_script')
+
+    class C(Interp):
+        def on_call(self2, text, callee, args, kwargs, node, frame):
+            if text == 'ScriptRunner':
+                self2.event('runner', kwargs.get('data_values_nest_level', args[1] if len(args) > 1 else 'ABSENT'))
+                return Obj('ScriptRunnerStub', {'metadata_only': True})
+            if text in ('Decoder', 'open', 'sys.stdin.read', 'ins.read', 'script_runner.run', 'decoder.process'):
+                return Top(text)
+            return self2.NOT_HANDLED
+    for lvl in (None, 0, 2, 4):
+        it = C(repo, None)
+        ns = Obj('Namespace', {'from_file': False, 'input': 'print(1)', 'data_values_nest_level': lvl, 'filenames': [], 'definitions_directory': None,
+                               'tables_root_directory': None, 'compiled_template_cache_max': None, 'ignore_value_expectation': False})
+        res = it.run_function(cs, lambda: {'ns': ns})
+        rr.instance('command_script hands nest level %r to ScriptRunner' % (lvl,))
+        for r in res:
+            got = [e[1] for e in r.events if e[0] == 'runner']
+            if not r.ok or got != [lvl]:
+                rr.fail('commands.command_script:nest-level', cs.where, 'with -n %r ScriptRunner receives %s' % (lvl, got or r.describe()))
+    rr.require_floor(14)
+    return rr
+
+
+def rule_r6(repo):
+    rr = RuleResult('C18.R6', 'QueryResult: level 2 (flat per subset) is the flattening of level 4, both in the order the subsets were selected')
+    qc = 'QueryResult'
+    from sa.rules.c16 import QueryInterp
+    results = {5: [[1, [2]], 3], 3: [[4]], 1: []}
+
+    def call(meth, **kw):
+        fi = repo.own_method(qc, meth)
+        it = QueryInterp(repo, qc)
+        loc = {'self': Obj(qc, {'results': dict(results), 'path_expr': 'x'})}
+        loc.update(kw)
+        for p in fi.params[1:]:
+            if p not in loc:
+                di = fi.params.index(p) - (len(fi.params) - len(fi.defaults))
+                loc[p] = ast.literal_eval(fi.defaults[di]) if di >= 0 else None
+        res = it.run_function(fi, lambda: dict(loc), self_class=qc)
+        if len(res) != 1 or not res[0].ok:
+            raise AnalysisError('QueryResult.%s could not be folded: %s' % (meth, [r.describe() for r in res]))
+        return fi, res[0].value
+    fi, idx = call('subset_indices')
+    rr.instance('subset_indices() keeps selection order')
+    if idx != [5, 3, 1]:
+        rr.fail('QueryResult.subset_indices', fi.where, 'subsets selected in the order [5, 3, 1] are reported as %r: levels 0-2 (which iterate subset_indices) and level 4 '
+                '(which iterates the results) would disagree for a selector such as @[::-1]' % (idx,))
+    fi4, l4 = call('all_values', flat=False)
+    fi2, l2 = call('all_values', flat=True)
+    rr.instance('all_values(flat=True) == per-subset flattening of all_values()')
+
+    def fl(v):
+        out = []
+        for x in v:
+            out += fl(x) if isinstance(x, list) else [x]
+        return out
+    if l4 != [[[1, [2]], 3], [[4]], []] or l2 != [fl(v) for v in l4]:
+        rr.fail('QueryResult.all_values', fi2.where, 'level 4 is %r and level 2 is %r; level 2 must be the per-subset flattening of level 4, subset by subset' % (l4, l2))
+    rr.require_floor(2)
     return rr
 
 
@@ -437,6 +510,7 @@ def run(repo, check):
     check.run_rule(rule_r3, repo)
     check.run_rule(rule_r4, repo)
     check.run_rule(rule_r5, repo)
+    check.run_rule(rule_r6, repo)
     check.coverage_extra = {
         'states': 5, 'transitions': r1.extra['cases'], 'traces_validated_against_impl': 0, 'samples': r1.extra['samples'] or [{'note': 'none'}],
         'model': 'transducer table of process_embedded_query_expr extracted from its syntax tree on this run: 5 states x 8 character classes x 9 '
